@@ -126,6 +126,11 @@ def battery():
                 for route in ROUTES:
                     cases.append({"entry": "update_static", "slot": slot, "wi": wi, "cfg": cfg, "route": route})
                     cases.append({"entry": "update_callable", "slot": slot, "wi": wi, "cfg": cfg, "route": route})
+                    if route in ("db.update", "h.update_all") and wi % 2 == 0:
+                        # the callable is well-behaved on the first matched point and returns the wrong value only later
+                        cases.append({"entry": "update_callable", "slot": slot, "wi": wi, "cfg": cfg, "route": route, "late": True})
+                        # a wrong static value next to a (valid) callable in another slot
+                        cases.append({"entry": "update_static", "slot": slot, "wi": wi, "cfg": cfg, "route": route, "mixed": True})
     for wi in range(8):
         for cfg in range(4):
             for route in ("db.insert", "db.insert_multiple", "db.insert_multiple_mid", "h.insert", "h.insert_multiple_mid"):
@@ -236,9 +241,21 @@ def run_case(case, ctx, wrong_value=None):
             q = qast.build(["leaf", "time", [], ["cmp", ">=", T0]])
             if entry == "update_static":
                 kw = {arg: val}
+                if case.get("mixed"):
+                    other_cb = {"tags": ("time", lambda t: t + dt.timedelta(hours=1)), "fields": ("tags", lambda t: {"cb": "1"}), "time": ("tags", lambda t: {"cb": "1"}), "measurement": ("fields", lambda f: {"cb": 1})}[arg]
+                    kw[other_cb[0]] = other_cb[1]
+            elif case.get("late"):
+                valid_first = {"time": T0 + dt.timedelta(days=9), "measurement": "late", "tags": {"late": "ok"}, "fields": {"late": 1}}[arg]
+                calls = {"n": 0}
+
+                def late_cb(old, _v=val, _ok=valid_first):
+                    calls["n"] += 1
+                    return _ok if calls["n"] == 1 else _v
+
+                kw = {arg: late_cb}
             else:
                 kw = {arg: (lambda old, _v=val: _v)}
-            falsy = entry == "update_static" and not val
+            falsy = entry == "update_static" and not val and not case.get("mixed")
 
             def call(extra=None):
                 k = dict(kw)
@@ -263,6 +280,20 @@ def run_case(case, ctx, wrong_value=None):
                     raise Violation("valid-rejected", show, "the valid twin %r of %r was rejected: %r" % (twin, show, e))
                 expected = [model.from_point(p) for p in db.all(sorted=False)]
                 kw = saved
+            if case.get("late") or case.get("mixed"):
+                if case.get("mixed") and not val:
+                    return  # a falsy static value means "not given": nothing to reject
+                expect_raise(show, call)
+                if kind == "csv":
+                    check_contents(show, db, expected)
+                else:
+                    # MemoryStorage keeps what was assigned before the failure (known finding KF-mem-update-partial); what must
+                    # hold there is that nothing invalid is readable afterwards
+                    for p_ in db.all(sorted=False):
+                        bad_ = is_valid_point_dict(model.from_point(p_))
+                        if bad_:
+                            raise Violation("invalid-stored", show, "after %r the memory database returns a point with an invalid %s" % (show, bad_))
+                return
             expect_raise(show, call)  # alone: always an error (a falsy value alone means "no arguments")
             check_contents(show, db, expected)
             # next to a valid other argument: a truthy wrong value must still raise; a falsy one means "not given"
@@ -280,7 +311,7 @@ def run_case(case, ctx, wrong_value=None):
 
 
 def nontrivial(case):
-    return case.get("primed") or case["entry"] == "update_callable" or case.get("slot") in ("tag_key", "tag_value", "field_key", "field_value") or case.get("route", "").endswith("_mid")
+    return case.get("primed") or case.get("late") or case.get("mixed") or case["entry"] == "update_callable" or case.get("slot") in ("tag_key", "tag_value", "field_key", "field_value") or case.get("route", "").endswith("_mid")
 
 
 def shards(tier):
